@@ -261,7 +261,7 @@ impl<'a> ExprGen<'a> {
         match self.rng.below(8) {
             0 | 1 => {
                 // (x - y) ==/!= c, c in {0,1,2}, both operand orders
-                let c = cst(self.rng.below(3) as i64, s);
+                let c = cst(*self.rng.pick(&[0, 1, 1, 2]), s);
                 let d = bin(IntSub, x, y);
                 let op = if self.rng.chance(1, 2) { IntEqual } else { IntNotEqual };
                 if self.rng.chance(1, 2) {
